@@ -23,4 +23,6 @@ def Err.name : Err → String
   | .keyError => "keyError" | .indexError => "indexError" | .reTemplate => "reTemplate"
   | .recursionDepth => "recursionDepth" | .addressValue => "addressValue" | .outOfFuel => "outOfFuel"
 
+deriving instance DecidableEq for Except
+
 end Netconan
